@@ -599,11 +599,20 @@ def narrowing_casts(f, names=None):
 WIDE = ("float64", "double", "float_", "longdouble", "float128", "float")
 
 
+def _stmt_of(fnode, node):
+    for st in ast.walk(fnode):
+        if isinstance(st, ast.stmt) and any(n is node for n in ast.walk(st)) and not isinstance(st, (ast.FunctionDef, ast.For, ast.While, ast.If, ast.With, ast.Try)):
+            return st
+    return node
+
+
 def promoted_to_double(f, param):
     """(True, None, '') if the first use of parameter `param` in f re-binds it to a double-precision copy of itself -
     numpy.float64(p), float(p), numpy.asarray / array(p, dtype=float | float64 | 'f8' | 'd'), p.astype(float ...) - possibly inside
     a larger expression (`numpy.float64(p) + eps`); else (False, node, text of the first use).  A value computed from a
     float32 argument in float32 carries 1e-7 relative error; for quantities that are later differenced that is the whole result."""
+    raw = {param}          # the parameter and its plain aliases (`r_ = r`)
+
     def is_widen(n):
         if not isinstance(n, ast.Call):
             return False
@@ -612,29 +621,44 @@ def promoted_to_double(f, param):
         def dt_ok(x):
             t = norm_text(x).replace("'", "").replace('"', "")
             return t.split(".")[-1] in WIDE + ("f8", "d")
-        if last in WIDE and len(n.args) == 1 and isinstance(n.args[0], ast.Name) and n.args[0].id == param:
+        if last in WIDE and len(n.args) == 1 and isinstance(n.args[0], ast.Name) and n.args[0].id in raw:
             return True
-        if last in ("asarray", "array", "asanyarray", "ascontiguousarray") and n.args and isinstance(n.args[0], ast.Name) and n.args[0].id == param:
+        if last in ("asarray", "array", "asanyarray", "ascontiguousarray") and n.args and isinstance(n.args[0], ast.Name) and n.args[0].id in raw:
             return any(k.arg == "dtype" and dt_ok(k.value) for k in n.keywords) or (len(n.args) > 1 and dt_ok(n.args[1]))
         if last == "astype" and isinstance(n.func, ast.Attribute) and n.args and dt_ok(n.args[0]):
             base = n.func.value
             while isinstance(base, ast.Call) and norm_text(base.func).split(".")[-1] in ("asarray", "array", "asanyarray") and base.args:
                 base = base.args[0]
-            return isinstance(base, ast.Name) and base.id == param
+            return isinstance(base, ast.Name) and base.id in raw
         return False
 
     def reads(node):
-        return [n for n in ast.walk(node) if isinstance(n, ast.Name) and n.id == param and isinstance(n.ctx, ast.Load)]
+        return [n for n in ast.walk(node) if isinstance(n, ast.Name) and n.id in raw and isinstance(n.ctx, ast.Load)]
+    wide = set()
     for st in f.node.body:
         if isinstance(st, ast.Expr) and isinstance(st.value, ast.Constant):
             continue
+        if not raw:
+            return True, None, ""
         rs = reads(st)
-        if not rs:
-            continue
-        if isinstance(st, ast.Assign) and len(st.targets) == 1 and isinstance(st.targets[0], ast.Name) and st.targets[0].id == param:
+        if isinstance(st, ast.Assign) and len(st.targets) == 1 and isinstance(st.targets[0], ast.Name):
+            tgt = st.targets[0].id
             wid = [n for n in ast.walk(st.value) if is_widen(n)]
             inside = set(id(x) for w in wid for x in ast.walk(w))
-            if wid and all(id(r_) in inside for r_ in rs):
-                return True, None, ""
-        return False, st, norm_text(st)[:80]
+            if rs and wid and all(id(r_) in inside for r_ in rs):
+                wide.add(tgt)           # a double-precision copy, under the parameter's own name or another
+                raw.discard(tgt)
+                continue
+            if isinstance(st.value, ast.Name) and st.value.id in raw:
+                raw.add(tgt)            # a plain alias is still the caller's array
+                continue
+            loaded = set(n.id for n in ast.walk(st.value) if isinstance(n, ast.Name) and isinstance(n.ctx, ast.Load))
+            if not rs and tgt in raw and loaded & wide:
+                wide.add(tgt)           # re-bound to its double-precision copy
+                raw.discard(tgt)
+                continue
+        if rs:
+            return False, st, norm_text(st)[:80]
+    if wide:
+        return True, None, ""          # used only through its double-precision copy
     return False, f.node, "parameter %s is never used" % param
